@@ -7,6 +7,7 @@ delivery and garbage collection are outside the model (assumed as in DESIGN §7.
 import CobaldVerif.Model.Daemon
 import CobaldVerif.Props.C01
 import CobaldVerif.Props.C03
+import CobaldVerif.Generated.Src
 import CobaldVerif.Lemmas.RuntimeProgress
 
 namespace Cobald.Props.C13
@@ -26,6 +27,12 @@ theorem dispatch_total (ext : String) :
     · have h1' := h1
       rw [not_or] at h1'
       simp [h1, h2, h1'.1, h1'.2]
+
+/-- the extension dispatch as it stands in the source of `core/config.py::load` (the lists are
+re-emitted from the source text on every run; the final `else` raises) is the model's `dispatch` -/
+theorem gen_dispatch_eq (ext : String) :
+    dispatch ext = (if ext ∈ Gen.dispatchYaml then .yaml else if ext ∈ Gen.dispatchPython then .python else .unknown) := by
+  simp [dispatch, Gen.dispatchYaml, Gen.dispatchPython]
 
 /-- the daemon's start is a behaviour of the runtime: the loader is queued as an asyncio
 payload and the runtime begins to accept -/
